@@ -123,6 +123,14 @@ class Typer:
     def stmt(self, s):
         if isinstance(s, ast.Assign):
             t = self.expr(s.value)
+            # a call whose declared signature returns a tuple of typed arrays:  a, b = f(...)
+            if isinstance(s.value, ast.Call) and len(s.targets) == 1 and isinstance(s.targets[0], ast.Tuple):
+                nm = s.value.func.attr if isinstance(s.value.func, ast.Attribute) else (s.value.func.id if isinstance(s.value.func, ast.Name) else None)
+                sig = self.call_sigs.get(core.src(s.value.func)) or self.call_sigs.get(nm)
+                if sig and "ret_tuple" in sig and len(sig["ret_tuple"]) == len(s.targets[0].elts):
+                    for tg, tt in zip(s.targets[0].elts, sig["ret_tuple"]):
+                        self.bind(tg, tt, s.value)
+                    return
             for tg in s.targets:
                 self.bind(tg, t, s.value)
         elif isinstance(s, ast.AnnAssign) and s.value is not None:
